@@ -4,6 +4,7 @@ import AvroModel.Props.C07
 import AvroModel.Lemmas.EndToEnd
 import AvroModel.Lemmas.RoundTrip
 import AvroModel.Lemmas.NormSpec
+import AvroModel.Lemmas.ReadBudget
 /-!
 # C01 — Encode-then-read round trip preserves every record
 
@@ -47,6 +48,18 @@ theorem record_exact (c : Codec) (s : ASchema) (hcf : CodecFor c s) (n n' m m' :
   rcases h with h | h
   · exact h
   · exact absurd h hnf
+
+/-- `record_exact` with an explicit step budget instead of the hypothesis "did not run out of
+budget": every `n' ≥ readBudget c v = Codec.sz c + 2 * Value.sz v + 2` (a function of the codec and
+the written datum only) decodes the written bytes exactly, whatever follows them. -/
+theorem record_exact_budget (c : Codec) (s : ASchema) (hcf : CodecFor c s) (n n' m m' : Nat) (g dst g' : GoVal) (bs bs' rest : Bytes) (v : Value)
+    (hw : write env n c g = some bs) (ht : toAvro env (omits env) m c g = some v)
+    (he : encode (canonPlan v) s v = some bs') (hf : ofAvro env m' c v dst = .ok g')
+    (hn : readBudget c v ≤ n') :
+    read env n' c (bs ++ rest) dst = .ok (g', rest) := by
+  have := C13.write_valid env c s hcf n m g bs bs' v hw ht he
+  subst this
+  exact read_exact env hcf he hn rest hf
 
 /-- a block payload is the concatenation of its records' encodings, so the records of a block decode
 one after the other: after the first record the reader stands exactly at the second -/
@@ -135,6 +148,16 @@ theorem value_roundtrip (c : Codec) (s : ASchema) (hcf : CodecFor c s) (n n' m m
     read env n' c (bs ++ rest) (Codec.zero env c) = .ok (normCodec env m' c g, rest) :=
   record_exact env c s hcf n n' m m' g _ _ bs bs' rest v hw ht he (roundTrip env m' m c g v ht hok) hnf
 
+/-- **C01, values, explicit budget**: `value_roundtrip` for every read budget
+`n' ≥ readBudget c v` (`v` the written datum); no hypothesis mentions `.fuel`. -/
+theorem value_roundtrip_budget (c : Codec) (s : ASchema) (hcf : CodecFor c s) (n n' m m' : Nat) (g : GoVal)
+    (bs bs' rest : Bytes) (v : Value)
+    (hw : write env n c g = some bs) (ht : toAvro env (omits env) m c g = some v)
+    (he : encode (canonPlan v) s v = some bs') (hok : RTOk env m' c g)
+    (hn : readBudget c v ≤ n') :
+    read env n' c (bs ++ rest) (Codec.zero env c) = .ok (normCodec env m' c g, rest) :=
+  record_exact_budget env c s hcf n n' m m' g _ _ bs bs' rest v hw ht he (roundTrip env m' m c g v ht hok) hn
+
 /-! non-vacuity: the codec the library builds for `struct { M map[string]int64; P *string; Q *[]int32 }` with a one-entry map, a
 non-nil string pointer and a nil slice pointer (which reads back as a pointer to the empty slice) -/
 
@@ -161,6 +184,20 @@ example : read toyEnv 10 exCodec (exBytes ++ [255]) (Codec.zero toyEnv exCodec)
     (ne_fuel_of (by decide +kernel))
   simpa [normCodec, exCodec, exVal, normFieldsWith, listSet, Codec.stripPtr, nilForm, omits] using this
 
+/-- the same through `value_roundtrip_budget`: `readBudget exCodec exDatum = 9 + 2 * 8 + 2 = 27`, and no
+evaluation of `read` is needed to discharge a hypothesis -/
+example : readBudget exCodec exDatum = 27 := by decide +kernel
+
+example (rest : Bytes) : read toyEnv 27 exCodec (exBytes ++ rest) (Codec.zero toyEnv exCodec)
+    = .ok (.struct [.map false [[97]] [.int 7], .ptr (some (.str [104, 105])), .ptr (some (.slice []))], rest) := by
+  have hcf : CodecFor exCodec exSchema :=
+    .record (.cons (.map .intL) (.cons (.unionOne1 (.pointer .string)) (.cons (.pointer (.array .intI)) .nil))) rfl
+  have := value_roundtrip_budget toyEnv exCodec exSchema hcf 10 27 10 5 exVal exBytes exBytes rest exDatum
+    (by decide +kernel) (by rfl) (by decide +kernel)
+    (by simp [RTOk, exCodec, exVal, FieldsOk, Codec.zero, inRange, Codec.ptrDepth])
+    (by decide +kernel)
+  simpa [normCodec, exCodec, exVal, normFieldsWith, listSet, Codec.stripPtr, nilForm, omits] using this
+
 /-- `normCodec` is a normal form (1): normalising twice is normalising once -/
 theorem norm_idempotent (h : EnvLaws env) (n : Nat) (c : Codec) (g : GoVal) (hok : RTOk env n c g) :
     normCodec env n c (normCodec env n c g) = normCodec env n c g :=
@@ -177,6 +214,17 @@ theorem value_roundtrip_exact (h : EnvLaws env) (c : Codec) (s : ASchema) (hcf :
   have := value_roundtrip env c s hcf n n' m m' g bs bs' rest v hw ht he hok hnf
   rwa [normCodec_plain env h m' c g hp] at this
 
+/-- `value_roundtrip_exact` with an explicit budget: a plain value is read back exactly as it was
+written by every read budget `n' ≥ readBudget c v` -/
+theorem value_roundtrip_exact_budget (h : EnvLaws env) (c : Codec) (s : ASchema) (hcf : CodecFor c s) (n n' m m' : Nat)
+    (g : GoVal) (bs bs' rest : Bytes) (v : Value)
+    (hw : write env n c g = some bs) (ht : toAvro env (omits env) m c g = some v)
+    (he : encode (canonPlan v) s v = some bs') (hok : RTOk env m' c g) (hp : Plain env m' c g)
+    (hn : readBudget c v ≤ n') :
+    read env n' c (bs ++ rest) (Codec.zero env c) = .ok (g, rest) := by
+  have := value_roundtrip_budget env c s hcf n n' m m' g bs bs' rest v hw ht he hok hn
+  rwa [normCodec_plain env h m' c g hp] at this
+
 /-- **C01 against the documented normalisations**: for a Go type `T` of the fragment of
 `normSpec_agrees`, the codec `c` of `T` and a well-typed value `g`, the value `r` read back from what
 was written for `g` equals `g` up to the documented normalisations and the recorded deviations
@@ -190,6 +238,18 @@ theorem value_roundtrip_spec (h : EnvLaws env) (T : GoType) (N M k : Nat) (c : C
     ∃ r, read env n' c (bs ++ rest) (Codec.zero env c) = .ok (r, rest) ∧
       normSpec k T false r = normSpecD 7 k T false g :=
   ⟨_, value_roundtrip env c s hcf n n' m m' g bs bs' rest v hw ht he hok hnf,
+    normSpec_agrees env h N M m' k T false c g hc hty hN hk⟩
+
+/-- `value_roundtrip_spec` with an explicit budget -/
+theorem value_roundtrip_spec_budget (h : EnvLaws env) (T : GoType) (N M k : Nat) (c : Codec) (s : ASchema)
+    (hcf : CodecFor c s) (n n' m m' : Nat) (g : GoVal) (bs bs' rest : Bytes) (v : Value)
+    (hc : fieldCodec N T false = some c) (hty : Typed M T g) (hN : N ≤ m') (hk : N ≤ k)
+    (hw : write env n c g = some bs) (ht : toAvro env (omits env) m c g = some v)
+    (he : encode (canonPlan v) s v = some bs') (hok : RTOk env m' c g)
+    (hn : readBudget c v ≤ n') :
+    ∃ r, read env n' c (bs ++ rest) (Codec.zero env c) = .ok (r, rest) ∧
+      normSpec k T false r = normSpecD 7 k T false g :=
+  ⟨_, value_roundtrip_budget env c s hcf n n' m m' g bs bs' rest v hw ht he hok hn,
     normSpec_agrees env h N M m' k T false c g hc hty hN hk⟩
 
 /-! non-vacuity of the three: the example value is `RTOk`; with `Q` pointing to an empty slice it is
@@ -228,5 +288,32 @@ example : ∃ r, read toyEnv 10 exCodec (exBytes ++ [255]) (Codec.zero toyEnv ex
     (by decide +kernel) (by rfl) (by decide +kernel)
     (by simp [RTOk, exCodec, exVal, FieldsOk, Codec.zero, inRange, Codec.ptrDepth])
     (ne_fuel_of (by decide +kernel))
+
+/-- non-vacuity of `value_roundtrip_exact_budget` / `value_roundtrip_spec_budget` -/
+example (rest : Bytes) : read toyEnv 27 exCodec (exBytes ++ rest) (Codec.zero toyEnv exCodec) = .ok (exValPlain, rest) := by
+  have hcf : CodecFor exCodec exSchema :=
+    .record (.cons (.map .intL) (.cons (.unionOne1 (.pointer .string)) (.cons (.pointer (.array .intI)) .nil))) rfl
+  exact value_roundtrip_exact_budget toyEnv toyEnv_laws exCodec exSchema hcf 10 27 10 5 exValPlain exBytes exBytes rest exDatum
+    (by decide +kernel) (by rfl) (by decide +kernel)
+    (by simp [RTOk, exCodec, exValPlain, FieldsOk, Codec.zero, inRange])
+    (by
+      simp [Plain, PlainFields, exCodec, exValPlain, Codec.stripPtr, omits]
+      intro j h0 h1 h2
+      match j with
+      | 0 => exact absurd rfl h0
+      | 1 => exact absurd rfl h1
+      | 2 => exact absurd rfl h2
+      | j + 3 => rfl)
+    (by decide +kernel)
+
+example (rest : Bytes) : ∃ r, read toyEnv 27 exCodec (exBytes ++ rest) (Codec.zero toyEnv exCodec) = .ok (r, rest) ∧
+    normSpec 8 exType false r = normSpecD 7 8 exType false exVal := by
+  have hcf : CodecFor exCodec exSchema :=
+    .record (.cons (.map .intL) (.cons (.unionOne1 (.pointer .string)) (.cons (.pointer (.array .intI)) .nil))) rfl
+  exact value_roundtrip_spec_budget toyEnv toyEnv_laws exType 8 5 8 exCodec exSchema hcf 10 27 10 8 exVal exBytes exBytes
+    rest exDatum (by rfl) (by simp [Typed, TypedFields, exType, exVal, GoField.type, isU8n]) (by omega) (by omega)
+    (by decide +kernel) (by rfl) (by decide +kernel)
+    (by simp [RTOk, exCodec, exVal, FieldsOk, Codec.zero, inRange, Codec.ptrDepth])
+    (by decide +kernel)
 
 end Avro.C01
